@@ -307,11 +307,12 @@ class Theory:
         else:
             raise TypeError
 
-    def _check_proof_item(self, prf, seq, rpt, no_gaps, compute_only, check_level):
+    def _check_proof_item(self, prf, seq, pos, rpt, no_gaps, compute_only, check_level):
         """Check a single proof item.
 
         prf -- proof to be checked.
         seq -- proof item to be checked.
+        pos -- position (tuple of indices) at which seq is being checked.
         rpt -- report for proof-checking. Modified by the function.
         no_gaps -- disable gaps.
         compute_only -- only executes rule if theorem is not present.
@@ -326,13 +327,12 @@ class Theory:
                 raise CheckProofException("empty line %s cannot have a statement" % seq.id)
             return None
 
-        # The identifier of an item must agree with its position in the proof.
-        # Otherwise can_depend_on (on identifiers) and find_item (on positions)
-        # disagree, and a step could cite an item that is not yet checked.
-        try:
-            if prf.find_item(seq.id) is not seq:
-                raise CheckProofException("id %s does not agree with position" % seq.id)
-        except ProofStateException:
+        # The identifier of an item must agree with the position at which it
+        # is being checked. Otherwise can_depend_on (on identifiers) and
+        # find_item (on positions) disagree, and a step could cite an item
+        # that is not yet checked. This is compared for each occurrence: an
+        # item object placed at a second position is refused there.
+        if seq.id.id != pos:
             raise CheckProofException("id %s does not agree with position" % seq.id)
 
         if seq.rule == "sorry":
@@ -348,8 +348,8 @@ class Theory:
             # In compute_only mode, skip when a theorem exists. However,
             # subproofs still need to be checked.
             if seq.rule == "subproof":
-                for s in seq.subproof.items:
-                    self._check_proof_item(prf, s, rpt, no_gaps, compute_only, check_level)
+                for i, s in enumerate(seq.subproof.items):
+                    self._check_proof_item(prf, s, pos + (i,), rpt, no_gaps, compute_only, check_level)
             return None
 
         if seq.rule == "theorem":
@@ -365,8 +365,8 @@ class Theory:
             nm, T = seq.args
             res_th = Thm.mk_VAR(Var(nm, T))
         elif seq.rule == "subproof":
-            for s in seq.subproof.items:
-                self._check_proof_item(prf, s, rpt, no_gaps, compute_only, check_level)
+            for i, s in enumerate(seq.subproof.items):
+                self._check_proof_item(prf, s, pos + (i,), rpt, no_gaps, compute_only, check_level)
             res_th = seq.subproof.items[-1].th
         else:
             # Otherwise, apply one of the proof methods. First, we
@@ -422,8 +422,8 @@ class Theory:
                     seq.subproof = macro.expand(seq.id, seq.args, list(zip(seq.prevs, prev_ths)))
                     if rpt is not None:
                         rpt.expand_macro(seq.rule)
-                    for s in seq.subproof.items:
-                        self._check_proof_item(prf, s, rpt, no_gaps, compute_only, check_level)
+                    for i, s in enumerate(seq.subproof.items):
+                        self._check_proof_item(prf, s, pos + (i,), rpt, no_gaps, compute_only, check_level)
                     res_th = seq.subproof.items[-1].th
                     seq.subproof = None
             else:
@@ -454,8 +454,8 @@ class Theory:
         
         """
         assert isinstance(prf, Proof), "check_proof"
-        for seq in prf.items:
-            self._check_proof_item(prf, seq, rpt, no_gaps, compute_only, check_level)
+        for i, seq in enumerate(prf.items):
+            self._check_proof_item(prf, seq, (i,), rpt, no_gaps, compute_only, check_level)
 
         return prf.items[-1].th
 
